@@ -118,5 +118,5 @@ L:
 		}
 	}
 
-	return &Conn{conn, CMSTargetCall}, nil
+	return &Conn{Conn: conn, remoteCall: CMSTargetCall, reader: reader}, nil
 }
